@@ -82,10 +82,19 @@ var c13Roles = []c13Role{
 		return fmt.Sprintf("SecRule ARGS \"@pm %s common-prefix-of-a-long-phrase-list-0123456789-abcdefghijklmnopqrstuvwxyz %s\" \"id:18,phase:1,deny,status:418\"\n", s, []string{"zzz", "qqq"}[v]), nil
 	}},
 	{"tchain", 2, func(s string, v int) (string, map[string]string) {
-		// transformation chains nobody has registered before the run, siblings in
-		// their last step: concurrent builders intern them at the same time
-		last := []string{"lowercase", "uppercase"}[v]
-		return fmt.Sprintf("SecRule ARGS:k \"@rx .\" \"id:19,phase:1,pass,log,t:none,t:urlDecode,t:removeNulls,t:trim,t:%s\"\nSecRule ARGS:k \"@rx .\" \"id:20,phase:1,pass,log,t:none,t:urlDecode,t:removeNulls,t:trimLeft,t:%s\"\nSecRule ARGS:k \"@streq %s\" \"id:21,phase:1,deny,status:421,t:none,t:urlDecode,t:removeNulls,t:%s\"\n", last, last, s, last), nil
+		// sibling transformation chains nobody has registered before the run, in
+		// opposite order in the two variants: concurrent builders intern them at
+		// the same time, and every WAF uses all of them on one argument
+		rules := []string{
+			"SecRule ARGS:k \"@rx .\" \"id:19,phase:1,pass,log,t:none,t:urlDecode,t:removeNulls,t:trim,t:lowercase\"\n",
+			"SecRule ARGS:k \"@rx .\" \"id:20,phase:1,pass,log,t:none,t:urlDecode,t:removeNulls,t:trim,t:uppercase\"\n",
+			"SecRule ARGS:k \"@rx .\" \"id:21,phase:1,pass,log,t:none,t:urlDecode,t:removeNulls,t:trimLeft,t:hexEncode\"\n",
+			"SecRule ARGS:k \"@rx .\" \"id:22,phase:1,pass,log,t:none,t:urlDecode,t:removeNulls,t:trimLeft,t:base64Encode\"\n",
+		}
+		if v == 1 {
+			rules[0], rules[1], rules[2], rules[3] = rules[3], rules[2], rules[1], rules[0]
+		}
+		return strings.Join(rules, "") + fmt.Sprintf("SecRule ARGS:k \"@streq %s\" \"id:23,phase:1,deny,status:421,t:none,t:urlDecode,t:removeNulls,t:lowercase\"\n", s), nil
 	}},
 	{"nid", 1, func(s string, v int) (string, map[string]string) {
 		return fmt.Sprintf("SecRule ARGS \"@validateNid cl %s\" \"id:7,phase:1,deny,status:407\"\n", s), nil
@@ -194,6 +203,9 @@ func c13Requests() []*TxScript {
 	}
 }
 
+// c13Salt: set at the start of every run from its seed (see c13Build)
+var c13Salt uint64
+
 func c13Build(c *c13Cfg) (h *wafHandle, class string, detail string) {
 	h = &wafHandle{Concurrent: true}
 	defer func() {
@@ -201,13 +213,17 @@ func c13Build(c *c13Cfg) (h *wafHandle, class string, detail string) {
 			h, class, detail = nil, "PANIC", fmt.Sprintf("%v\n%s", r, shortStack())
 		}
 	}()
-	cfg := coraza.NewWAFConfig().WithDirectives(c.Text)
+	// chains that start with t:none get two run-specific identity steps instead:
+	// the same behaviour (the golden table stays valid), but a chain name the
+	// process has not interned before this run
+	text := strings.ReplaceAll(c.Text, "t:none,", fmt.Sprintf("t:vident%d,t:vident%d,", c13Salt%identTotal, (c13Salt/identTotal)%identTotal))
+	cfg := coraza.NewWAFConfig().WithDirectives(text)
 	if len(c.Files) > 0 {
 		m := fstest.MapFS{}
 		for k, v := range c.Files {
 			m[k] = &fstest.MapFile{Data: []byte(v)}
 		}
-		cfg = coraza.NewWAFConfig().WithRootFS(m).WithDirectives(c.Text)
+		cfg = coraza.NewWAFConfig().WithRootFS(m).WithDirectives(text)
 	}
 	w, err := coraza.NewWAF(cfg)
 	if err != nil {
@@ -336,12 +352,30 @@ func c13Run(w *verifrt.World, tier Tier) *RunResult {
 		return res
 	}
 	t := w.Work
+	c13Salt = w.Seed
 	// configurations of one run share a string, so that keys collide
 	s := c13Strings[t.Draw(len(c13Strings))]
 	var related []int
 	for i, c := range c13Pool {
 		if strings.Contains(c.Name, "("+s+")") || (c13Alias[s] != "" && strings.Contains(c.Name, "("+c13Alias[s]+")") && !strings.Contains(c.Name, "+")) {
 			related = append(related, i)
+		}
+	}
+	// family mode (a quarter of the runs): only the variants of one role that has
+	// several (the same name with different contents, sibling phrase lists or
+	// chains) - the histories then build exactly the configurations that compete
+	// for one cache entry or one in-flight compilation
+	if t.Draw(4) == 0 {
+		fam := pick(t, []string{"pmds", "pmfile", "schema", "rxpf", "pmlong", "tchain", "pmlong", "tchain"})
+		var only []int
+		for _, i := range related {
+			if strings.HasPrefix(c13Pool[i].Name, fam) && !strings.Contains(c13Pool[i].Name, "+") {
+				only = append(only, i)
+			}
+		}
+		if len(only) >= 2 {
+			related = only
+			res.count("family_mode_runs", 1)
 		}
 	}
 	ntasks := 1
